@@ -506,6 +506,7 @@ where
         report.event_hash = s.event_hash;
         report.events = std::mem::take(&mut s.events);
         report.counters = std::mem::take(&mut s.counters);
+        report.counters.insert("schedule_len".into(), report.schedule.len() as u64);
         report.n_tasks = s.max_task + 1;
     });
     let v = out.lock().unwrap().take();
